@@ -33,9 +33,11 @@ struct Shape {
     int64_t amount = 100000000;
     std::string leaf_kind;                // p2wsh-checksig / p2tr-script: "" = the signature script; "data" = a signature-free script over two small witness items
                                           // whose hex spelling is digits only (51, 1234); "p2sh-shaped" = OP_HASH160 <20 bytes> OP_EQUAL as witness script / leaf
+    int annex_len = 4;                    // length of the annex (first byte 0x50) when one is attached
     int tap_checks = 1;                   // p2tr-script: the leaf checks its one signature this many times (<P> [2DUP CHECKSIGVERIFY]* CHECKSIG): BIP342 budget vs whole-witness size
     int pad = 0, pad2 = 0;                // p2wsh-checksig / p2tr-script: the script starts with <pad bytes> DROP [<pad2 bytes> DROP] (scripts larger than one stack element)
 };
+inline bytes annex_bytes(const Shape& sh) { bytes a{0x50}; for (int i = 1; i < sh.annex_len; i++) a.push_back(uint8_t(0xa0 + i % 16)); return a; }
 inline bytes pad_prefix(const Shape& sh) {
     bytes r;
     for (int n : {sh.pad, sh.pad2}) if (n > 0) { bytes d(n, 0x5a); bytes p = push_raw(d); r.insert(r.end(), p.begin(), p.end()); r.push_back(0x75); }
@@ -138,7 +140,7 @@ inline Spend make_spend(const std::string& type, const Shape& sh, uint8_t ht = 1
         S.fund = base_fund(sh, p2tr_spk(q)); S.tx = base_spend(sh, S.fund); S.spent = spent_list(sh, S.fund);
         S.internal_key = k1.xonly;
         TapCtx c; c.script_path = false; bytes ann;
-        if (annex) { ann = ref::unhex("50aabbcc"); c.annex_present = true; c.annex = ann; }
+        if (annex) { ann = annex_bytes(sh); c.annex_present = true; c.annex = ann; }
         bytes digest; bool ok = sighash_bip341(S.tx, sh.pos, S.spent, ht, c, digest);
         bytes tw = priv_tweak_add(k1.priv, taptweak_hash(k1.xonly, {}));
         bytes sig = ok ? schnorr_sign(tw, digest) : bytes(64, 0x11);
@@ -160,7 +162,7 @@ inline Spend make_spend(const std::string& type, const Shape& sh, uint8_t ht = 1
         S.control = bytes{uint8_t(0xc0 | par)}; S.control.insert(S.control.end(), k1.xonly.begin(), k1.xonly.end()); for (auto& n : path) S.control.insert(S.control.end(), n.begin(), n.end());
         S.fund = base_fund(sh, p2tr_spk(q)); S.tx = base_spend(sh, S.fund); S.spent = spent_list(sh, S.fund);
         TapCtx c; c.script_path = true; c.tapleaf_hash = tapleaf_hash(0xc0, S.leaf_script); c.codesep_pos = 0xffffffffu; bytes ann;
-        if (annex) { ann = ref::unhex("50aabbcc"); c.annex_present = true; c.annex = ann; }
+        if (annex) { ann = annex_bytes(sh); c.annex_present = true; c.annex = ann; }
         bytes digest; bool ok = sighash_bip341(S.tx, sh.pos, S.spent, ht, c, digest);
         bytes sig = ok ? schnorr_sign(k2.priv, digest) : bytes(64, 0x11);
         if (ht != 0) sig.push_back(ht);
